@@ -159,9 +159,14 @@ fn run_isolated(scn: Scn, stats: Stats) -> (Scn, Outcome, Stats, (u64, u64, u64)
             // a panic escaped every guard of the engine (an engine call the oracles make outside
             // catch_unwind, or the simulator's own code): never lose it, never die silently
             let msg = common::LAST_PANIC_GLOBAL.lock().ok().and_then(|g| g.clone()).unwrap_or_default();
-            let from_tera = msg.contains("/tera/src/");
+            // Whose panic? A location in the simulator's own sources is a simulator bug (exit 2).
+            // Anything else — tera's sources, or the standard library (slicing, unwrap and
+            // arithmetic report a location inside core when the caller is not `track_caller`) —
+            // is attributed to the code under test: the simulator's own slicing and arithmetic
+            // run identically on the unchanged tree, where no such panic occurs.
+            let from_sim = msg.contains("terasim/src/") || msg.contains("shim-ahash/") || msg.contains("sim/terasim");
             let mut o = Outcome::default();
-            o.violations.push(Violation::new(if from_tera { "C07" } else { "HARNESS" }, "panic-outside-guards", msg));
+            o.violations.push(Violation::new(if from_sim { "HARNESS" } else { "C07" }, "panic-outside-guards", msg));
             let st = std::mem::take(&mut *shared.lock().unwrap_or_else(|e| e.into_inner()));
             (backup, o, st, (0, 0, 0))
         }
